@@ -65,14 +65,21 @@ def cff_flex_font():
     from fontTools.fontBuilder import FontBuilder
     from fontTools.misc.psCharStrings import T2CharString
     fb = FontBuilder(1000, isTTF=False)
-    order = [".notdef", "A", "B", "C", "D"]
+    order = [".notdef", "A", "B", "C", "D", "E", "F", "G", "H", "I", "J"]
     fb.setupGlyphOrder(order); fb.setupCharacterMap({65 + i: n_ for i, n_ in enumerate(order[1:])})
     cs = lambda *p: T2CharString(program=list(p))
     chars = {".notdef": cs(500, 0, "hmoveto", "endchar"),
              "A": cs(10, 20, "rmoveto", 10, 10, 20, 20, 10, 10, 10, -10, 20, 20, 30, "flex1", "endchar"),          # |dx| == |dy| tie
              "B": cs(0, 0, "rmoveto", 50, 5, 10, 5, 40, -10, 30, 0, 20, -5, 7, "flex1", 0, -100, "rlineto", "endchar"),
              "C": cs(5, 5, "rmoveto", 0, 0, 0, 0, 0, 0, 0, 0, 0, 0, 40, "flex1", 50, 50, "rlineto", "endchar"),     # zero sum
-             "D": cs(620, 100, 0, "rmoveto", 10, 20, 30, 40, 50, 60, 7, "hflex", 10, 1, 20, 2, 30, 40, 50, 3, 60, "hflex1", -100, "vlineto", "endchar")}
+             "D": cs(620, 100, 0, "rmoveto", 10, 20, 30, 40, 50, 60, 7, "hflex", 10, 1, 20, 2, 30, 40, 50, 3, 60, "hflex1", -100, "vlineto", "endchar"),
+             # every multi-curve form of the curve operators, with the optional leading / trailing argument
+             "E": cs(100, 50, "rmoveto", 10, 30, 20, 15, 35, 25, 10, -8, 40, 22, 16, 5, 33, "hhcurveto", "endchar"),        # dy1 + three curves (13 arguments)
+             "F": cs(100, 50, "rmoveto", 12, 30, 20, 15, 35, 25, 10, 40, 30, "vvcurveto", "endchar"),                     # dx1 + two curves
+             "G": cs(0, 0, "rmoveto", 30, 20, 15, 35, 25, 10, 40, 35, 10, 20, 30, 40, 7, "hvcurveto", "endchar"),              # three curves + trailing
+             "H": cs(0, 0, "rmoveto", 30, 20, 15, 35, 25, 10, 40, 35, 9, "vhcurveto", "endchar"),                              # two curves + trailing
+             "I": cs(10, 10, "rmoveto", 10, 20, 30, 40, 50, 60, 5, 15, 25, 35, 45, 55, -30, -40, "rcurveline", "endchar"),
+             "J": cs(10, 10, "rmoveto", 10, 20, -5, 30, 40, 10, 10, 20, 30, 40, 50, 60, "rlinecurve", "endchar")}
     fb.setupCFF("GenFlex", {"FullName": "Gen Flex"}, chars, {"defaultWidthX": 500, "nominalWidthX": 0})
     fb.setupHorizontalMetrics({n_: (500, 0) for n_ in order}); fb.setupHorizontalHeader(ascent=800, descent=-200)
     fb.setupNameTable({"familyName": "GF", "styleName": "R"}); fb.setupOS2(); fb.setupPost()
